@@ -161,6 +161,8 @@ type spawnRec struct {
 	gotTerm   chan struct{} // closed when the child reported TERM on its pipe
 	eof       chan struct{} // closed when the child's pipe reached EOF
 	recovered bool          // reported as oldPID by OnChildRecover
+	lastAlive time.Time     // taken before a /proc read that showed the child running: it exited later than this
+	seenDead  bool
 }
 
 type runState struct {
@@ -422,9 +424,15 @@ func runHistory(r *mon.Run, idx int, h history) (out outcome) {
 				s.note("exit status of %d: %q (scripted %q): respawn bound not judged", oldPID, got, want)
 			} else {
 				r.Event("respawn_lower_bounds_judged", 1)
-				minGap := time.Duration(old.B.D)*time.Millisecond + interval
-				if gap := nw.TEntry.Sub(old.TBefore); gap < minGap-2*time.Millisecond {
-					addCbViol("respawn-before-recover-interval", fmt.Sprintf("child pid %d (lifetime >= %dms) was replaced %v after it was started; exit + RecoverInterval(%v) needs >= %v", oldPID, old.B.D, gap, interval, minGap))
+				// the child exited no earlier than start + scripted lifetime, and no earlier
+				// than the last moment the /proc poller saw it running
+				exitLB := old.TBefore.Add(time.Duration(old.B.D) * time.Millisecond)
+				how := "start + scripted lifetime"
+				if old.lastAlive.After(exitLB) {
+					exitLB, how = old.lastAlive, "last seen running in /proc"
+				}
+				if gap := nw.TEntry.Sub(exitLB); gap < interval-2*time.Millisecond {
+					addCbViol("respawn-before-recover-interval", fmt.Sprintf("child pid %d was replaced %v after the earliest moment it can have exited (%s); RecoverInterval is %v", oldPID, gap, how, interval))
 				}
 			}
 		}
@@ -449,6 +457,43 @@ func runHistory(r *mon.Run, idx int, h history) (out outcome) {
 			tReturn = time.Now()
 		})
 	}()
+
+	// /proc poller: tightens the lower bound of each self-exiting child's exit time
+	// (only needed to judge RecoverInterval)
+	pollStop := make(chan struct{})
+	if interval > 0 {
+		go func() {
+			tk := time.NewTicker(15 * time.Millisecond)
+			defer tk.Stop()
+			for {
+				select {
+				case <-pollStop:
+					return
+				case <-tk.C:
+				}
+				s.mu.Lock()
+				var todo []*spawnRec
+				for _, sp := range s.spawns {
+					if sp.B.selfExits() && !sp.seenDead && !sp.recovered {
+						todo = append(todo, sp)
+					}
+				}
+				s.mu.Unlock()
+				for _, sp := range todo {
+					tb := time.Now()
+					v := viewChild(sp.Pid, sp.Starttime)
+					s.mu.Lock()
+					if v.state == "alive" {
+						sp.lastAlive = tb
+					} else {
+						sp.seenDead = true
+					}
+					s.mu.Unlock()
+				}
+			}
+		}()
+	}
+	defer close(pollStop)
 
 	// supervise the supervisor: bounded-liveness monitor for exited-but-unreaped children
 	zombieSince := map[int]time.Time{}
